@@ -2,18 +2,18 @@ SPECIFICATION MCSpec
 CONSTANTS
   Nodes = {"a"}
   Kinds = {"E"}
-  MaxOps = 3
+  MaxOps = 2
   MaxSys = 0
-  MaxFail = 1
+  MaxFail = 0
   MaxRecFail = 1
   MaxBlock = 1
   MaxTake = 0
   MaxCrash = 1
-  MaxStep = 0
-  MaxZombie = 0
+  MaxStep = 2
+  MaxZombie = 1
   MaxSnap = 0
   Keeps = {0}
-  Eager = TRUE
+  Eager = FALSE
 INVARIANTS TypeOK C18_ControllerDispatches C18_IdContent C18_NoSkip C18_FirstOrder C18_LPSound I_DispAboveLP NoPanic
 PROPERTIES StepsOK
 VIEW MCView
